@@ -13,6 +13,7 @@ Next ==
                        <<"RejectCreate", MonRejectCreate(e)>>,
                        <<"RejectExec",   MonRejectExec(e)>>,
                        <<"RejectDirect", MonRejectDirect(e)>>,
+                       <<"PaidDeclared", MonPaidDeclared(e)>>,
                        <<"HopBalances",  MonHopBalances(e)>>,
                        <<"VaultTotals",  MonVaultTotals(e)>> >>)
        /\ Drift(i', Conforms(e), e.op)
